@@ -138,6 +138,17 @@ CHECKS["C07"] = dict(
    note="No Dart/Kotlin toolchain exists in the sandbox: declarations are compared as declarations, nothing is executed. Trusted: Coq kernel+vm_compute, "
         "Abi/Model.v transcription, the meaning tables of dart:ffi/JNA names, python parsers, gen/tablegen.py.",
    design="§5 C07")
+CHECKS["C08"] = dict(
+   text="Proof: Layout/Model.v transcribes js/layout.rs (struct_field_info, size/alignment/scalar counts, Option layout), byte-level reads/writes and "
+        "the forcePadding logic; C08_offsets_are_reprC (offsets, size, alignment = the repr(C) rule, for all nested structs and field orders), "
+        "C08_padding_typed_exact (typed padding = the gap to the next field / struct end, in units of the field's alignment; the run-time assertion "
+        "in layout.rs cannot fire), C08_size_multiple_of_align. Tied to the code by executing the generated JS (js.abi legacy and spec) in node "
+        "against a mock wasm module: argument lists, bytes written, values read back from repr(C) bytes, receive-buffer size/alignment; each "
+        "observation is compared with an independent python repr(C)/ABI-doc implementation and with the model in Coq.",
+   note="No wasm32 Rust target in the sandbox: the legacy flattened argument list is checked against docs/wasm_abi_quirks.md, not rustc. Slices, "
+        "opaque fields and 128-bit integers are not generated; one corner (2-scalar struct directly inside an aggregate with a union) is excluded. "
+        "Trusted: Coq kernel+vm_compute, hand transcription, python spec, node.",
+   design="§5 C08")
 NOT_YET = {
 }
 ALL = [f"C{i:02d}" for i in range(1, 18)]
